@@ -206,5 +206,44 @@ prop(
     trusted_base=PIPE_TB, assumptions=PIPE_ASSUME + ["every non-empty batch carries at least one row, and the actor flushes as soon as MaxBufferedRows rows are buffered (tied by the C10 actor correspondence)"],
 )
 
+PROTO_TB = [KERNEL, AXIOMS, TDIFF, HOOKS, "the instrumented in-memory DataStore / MetaStore wrappers of the harness (call log, k-th-call fault injection)",
+            "modelled, not verified: the protocols are hand-written from handleFlush / merge / executeMergeGroup; the tie is the exact comparison of the store-call log, acknowledgement / return value, MetaStore content and query visibility at every fault position"]
+
+prop(
+    "C06",
+    lean_modules=["BloomVerif.Lemmas.Proto", "BloomVerif.Lemmas.Actor", "BloomVerif.Props.C06", "BloomVerif.Props.C10"],
+    technique="Lean 4 proof over an arbitrary fault predicate on call positions (nil ⇔ committed ⇔ the four essential calls succeeded; error ⇒ nothing committed and cleanup issued) + exhaustive fault-position differential check with visibility on this and a fresh engine",
+    design_ref="DESIGN.md section 4 C06",
+    text="Machine-checked for every set of failing call positions, any number of blocks, with and without an Abort-capable writer: the acknowledgement is nil exactly when CreateFile, every Write, Close and Update succeeded, exactly then the file is committed "
+         "(and its rows become visible exactly once: allRows/query append lemmas); an error means nothing was committed and whatever was created was tombstoned; a batch with an unmarshalable row leaves the actor state untouched. "
+         "Every single fault position (all pairs in the thorough tier) of flushes of 1-3 blocks is injected into the real engine; the store-call log and acknowledgements must equal the model and the rows must be visible / absent on this engine and on a fresh engine.",
+    trusted_base=PROTO_TB,
+    assumptions=["MetaStore.Update is atomic (as the property states); a single flush worker (proved FIFO in C07)"],
+)
+
+prop(
+    "C10",
+    lean_modules=["BloomVerif.Lemmas.Actor", "BloomVerif.Props.C10"],
+    technique="Lean 4 proof about the actor step function (under-limits invariant over all message sequences, immediate flush of all buffered data when a limit is reached, time trigger, row conservation) + exact differential check of the files written",
+    design_ref="DESIGN.md section 4 C10",
+    text="Machine-checked for every message sequence: between messages all four limits hold strictly; a batch that makes buffered rows, bytes or a touched partition's rows/bytes reach its limit hands all buffered data and every waiter to the flush worker in that step; "
+         "a tick at or after start + MaxBufferedTime flushes a non-empty buffer (which always has a start time); no row is lost or duplicated on the way. Partial: the 100 ms ticker allowance is wall clock, monitored with slack. "
+         "Deterministic message sequences are driven through the real engine and the files it wrote, in creation order, must equal the flush requests the Lean actor predicts (partitions, row ids, bytes, waiters).",
+    trusted_base=PROTO_TB + ["Go map iteration order over partitions (flush contents compared per partition)"],
+    assumptions=["limits are positive (config validation)", "row size = marshaled length + 4"],
+)
+
+prop(
+    "C13",
+    lean_modules=["BloomVerif.Lemmas.Proto", "BloomVerif.Props.C13"],
+    technique="Lean 4 proof over an arbitrary fault predicate on the call positions of a multi-group merge (committed xor unchanged; nil iff committed and clean; ErrPostCommitCleanup iff committed and a source tombstone failed) + exhaustive fault-position differential check",
+    design_ref="DESIGN.md section 4 C13",
+    text="Machine-checked for every merge plan and every set of failing call positions: either the merge committed (no output tombstoned, every source tombstone issued after the commit) or the MetaStore is unchanged and no source was touched; nil iff committed and every source tombstone succeeded; "
+         "ErrPostCommitCleanup iff committed and one failed; orphan outputs are tombstoned. A failure is injected at every call position of real multi-group merges (iterator, CreateFile, OpenFile, Read, Write, Close, Update, TombstoneFile) and return value, MetaStore content, "
+         "tombstone order and a match-all query are compared with the model; a concurrent Merge must return ErrMergeInProgress.",
+    trusted_base=PROTO_TB + ["Go map iteration order over partitions inside a group (the plan handed to the model is read off each run's own call log)"],
+    assumptions=["MetaStore.Update is atomic"],
+)
+
 # Properties not claimed, with the reason (kept current; see DESIGN.md).
 NOT_CLAIMED = {}
